@@ -331,7 +331,9 @@ def compile_scenario(steps, rng, parsed_of):
             add(fo[2], ("getlog",))
         script = []
         if faulty and reader and rng.random() < 0.3:
-            script = [rng.choice(["ok", "500", "drop"]) for _ in range(rng.randint(1, 3))]
+            # no "drop" here: two adjacent GETs of one object (rows sharing a blob) could not
+            # be told from a transport-level re-send of a dropped GET (see effective())
+            script = [rng.choice(["ok", "500", "404"]) for _ in range(rng.randint(1, 3))]
         t = tag()
         fo = fetch_ops(t, m + 1, "BODY[]", script)
         add(fo[0])
